@@ -17,7 +17,8 @@ pub struct Cfg {
     pub parity: u16,
     /// 0: one block, 1: two equal, 2: two unequal (k, k-1), 3: three blocks, 4: five blocks,
     /// 5: seven blocks of unequal size (large sessions: bounded number of losses instead of all subsets),
-    /// 6: one block of exactly k symbols (used with k + parity = 255 / 256: every single loss)
+    /// 6: one block of exactly k symbols (used with k + parity = 255 / 256: every single loss),
+    /// 7: 2100 blocks of k symbols, two transfers (beyond the receiver's block-table limits): losses at boundary blocks
     pub shape: u8,
     pub interleave: u8,
     pub inband_fti: bool,
@@ -41,6 +42,7 @@ impl Cfg {
             3 => 3 * k * e - 1,
             4 => 5 * k * e - 1,
             6 => k * e - 1,
+            7 => 2100 * k * e - 1,
             _ => (7 * k - 3) * e - 1,
         }
     }
@@ -462,6 +464,17 @@ fn configs(thorough: bool) -> Vec<Cfg> {
         }
         v.push(Cfg { scheme, k, parity, shape: 6, interleave: 1, inband_fti: k % 2 == 0, count: 1, split_sig: false });
     }
+    // objects of 2100 source blocks, transferred twice: the receiver's block table has to grow past its
+    // pre-allocation (2048) while an early block is still incomplete
+    for (scheme, parity) in [(Scheme::NoCode, 0u16), (Scheme::Rs28Us, 1), (Scheme::Rs28, 1)] {
+        if !thorough && scheme == Scheme::Rs28 {
+            continue;
+        }
+        v.push(Cfg { scheme, k: 1, parity, shape: 7, interleave: 1, inband_fti: true, count: 2, split_sig: false });
+        if thorough {
+            v.push(Cfg { scheme, k: 1, parity, shape: 7, interleave: 3, inband_fti: false, count: 2, split_sig: false });
+        }
+    }
     v
 }
 
@@ -501,6 +514,42 @@ pub fn run(thorough: bool) -> i32 {
             let mut push = |key: String, what: String, mult: &[u8]| {
                 viol.entry(key).and_modify(|e| e.2 += 1).or_insert((what, Case { cfg: cfg.clone(), fdt: *fdt, mult: mult.to_vec() }, 1));
             };
+            if cfg.shape == 7 {
+                // many-block session, two transfers: nothing lost, every single loss and every pair (one loss per
+                // transfer) among the source symbols of the boundary blocks {0, 1, 2047, 2048, 2049, last}
+                if *mode == 1 {
+                    return (g, viol, None, n);
+                }
+                let last = p.k_of.len() as u32 - 1;
+                let mut pos: [Vec<usize>; 2] = [Vec::new(), Vec::new()];
+                for b in [0u32, 1, 2047, 2048, 2049, last] {
+                    let occ: Vec<usize> = (0..n).filter(|j| p.rec.info[p.obj[*j]].sbn == b && p.rec.info[p.obj[*j]].esi == 0).collect();
+                    for (t, j) in occ.iter().enumerate().take(2) {
+                        pos[t].push(*j);
+                    }
+                }
+                let mut pats: Vec<Vec<usize>> = vec![vec![]];
+                for t in 0..2 {
+                    for a in &pos[t] {
+                        pats.push(vec![*a]);
+                    }
+                }
+                for a in &pos[0] {
+                    for b in &pos[1] {
+                        pats.push(vec![*a, *b]);
+                    }
+                }
+                for lost in pats {
+                    let mut mult = vec![1u8; n];
+                    for l in &lost {
+                        mult[*l] = 0;
+                    }
+                    if let Some((k, w)) = run_pattern(&p, *fdt, &mult, &mut g) {
+                        push(k, w, &mult);
+                    }
+                }
+                return (g, viol, None, n);
+            }
             if n > 16 {
                 // large session: all patterns with at most `maxl` losses (mode 0), or with one loss
                 // and one duplicate (mode 1)
